@@ -239,6 +239,7 @@ def run(ctx):
                     break
                 model_cases.append((s, cs, mode, ev, snaps))
         real_oracle(ctx, I)
+        resync_refs(ctx, I)
         spec_oracle(ctx, I)
     ctx.sample(dict(stream=list(cases[len(corpus)][0]), rootmode=cases[len(corpus)][1], kind=cases[len(corpus)][2]))
     ctx.sample(dict(stream=list(cases[-1][0]), rootmode=cases[-1][1], kind=cases[-1][2]))
@@ -462,7 +463,8 @@ def real_oracle(ctx, I):
         if k < 0.7:
             return tuple(rand_obj(d - 1) for _ in range(r.randrange(4)))
         if k < 0.8:
-            return {r.choice([1, 2, b"k", "u"]): rand_obj(d - 1) for _ in range(r.randrange(3))}
+            # keys include tuples of every length: the location strings built on error paths format the current key
+            return {r.choice([1, 2, b"k", "u", (1, 2), (), (b"a", (1,)), (7,), frozenset([1])]): rand_obj(d - 1) for _ in range(r.randrange(3))}
         if k < 0.9:
             return set(r.choice([1, 2, 3, b"x"]) for _ in range(r.randrange(3)))
         return frozenset(r.choice([1, 2, 3]) for _ in range(r.randrange(3)))
@@ -494,6 +496,76 @@ def real_oracle(ctx, I):
                 ctx.fail("oracle/chunk-dependent", "standard unslicers: behaviour depends on the chunking: whole %r vs %r -> %r; stream=%r"
                          % (ref, cs[:30], (ev, final), list(s)), replay=dict(stream=list(s), chunks=cs, real=True))
                 break
+
+
+def resync_refs(ctx, I):
+    """ONE real sender emits: an object, an object the receiver must reject part-way (a Copyable class unknown to the receiver whose
+    state holds nested containers, so that OPEN tokens are dropped while discarding), then a graph with shared sub-objects.  The
+    sender numbers every OPEN it emits; the receiver must keep the same numbering across the discarded ones, or the back-references
+    of the last object resolve to the wrong container."""
+    from foolscap import copyable
+    r = ctx.rng
+
+    class Unk(copyable.Copyable):
+        typeToCopy = "verif.c07.unknown"
+
+        def __init__(self, state):
+            self.state = state
+
+        def getStateToCopy(self):
+            return self.state
+    n = ctx.n(24, 300)
+    for i in range(n):
+        x = [1, r.randrange(100)]
+        y = {b"k": x}
+        shared = r.choice([[x, x], {b"p": x, b"q": x}, [x, [x, 3]], ([9], x, x), [y, y, x], [x, [5], x, (x, x)]])
+        first = r.choice([b"first", [7, [8]], 5, (1, (2, [3]))])
+        state = r.choice([{"a": [1, [2]], "b": {"k": (3, [4])}}, {"a": [[[]]]}, {"a": 1}, {"a": [[1], [2], [3], {"z": [4]}]}])
+        where = r.choice(["bare", "list", "deep", "tuplekey", "tuplekey0", "setmember"])
+        bad = (Unk(state) if where == "bare" else [b"a", Unk(state), b"tail"] if where == "list" else
+               [[(Unk(state), [1])], {b"q": [2]}] if where == "deep" else
+               {(1, 2): Unk(state), b"z": [1]} if where == "tuplekey" else
+               [{(): [Unk(state)]}, {(1, (2, 3), 4): {(5,): Unk(state)}}] if where == "tuplekey0" else
+               [[1, 2], (Unk(state), frozenset([1, 2]))])
+        try:
+            s = _ser_many([first, bad, shared])
+        except Exception as e:
+            ctx.note("resync_refs: sender refused a case: %r" % e)
+            continue
+        expect = [["deliver", I.deep_canon(first)], ["violation"], ["deliver", I.deep_canon(shared)]]
+        for cs in chunkings(r, len(s), bytewise_limit=400):
+            ev, final, esc = I.run_real(s, cs, I.RealStorageBanana)
+            ctx.case(["resync-refs", list(s), cs], nontrivial=True)
+            ctx.hist("kind", "real-resync-refs")
+            got = [list(e) for e in ev if e[0] in ("deliver", "violation", "receive-error", "error-sent", "lose")]
+            if esc or got != expect:
+                ctx.fail("oracle/reference-after-violation", "after a rejected object with nested containers, a following object with shared "
+                         "sub-objects was not decoded as sent (object numbering must count discarded OPENs too): expected %r, got %r, escaped %r; "
+                         "chunks %r" % (expect, got, esc, cs[:12]), replay=dict(stream=list(s), chunks=cs, real=True))
+                break
+
+
+def _ser_many(objs):
+    """serialize several objects with ONE real sender (its OPEN numbering runs on across them)"""
+    from foolscap import banana
+
+    class W:
+        def __init__(self):
+            self.data = []
+            self.disconnecting = False
+
+        def write(self, d):
+            self.data.append(bytes(d))
+
+        def loseConnection(self, *a):
+            pass
+    from foolscap import storage
+    b = storage.StorageBanana()          # its root slicer tracks references (a plain Banana sends shared objects as copies)
+    b.transport = W()
+    b.connectionMade()
+    for o in objs:
+        b.send(o)
+    return b"".join(b.transport.data)
 
 
 def _ser(o):
